@@ -65,6 +65,7 @@ func genRTConfig(ch *Chooser, prop, tier string, disabled map[string]bool) *RunC
 	cfg.ApiPm = []int{0, 20, 60, 150}[ch.Pick("r-api", 4)]
 	cfg.HoldPm = []int{0, 0, 20, 60}[ch.Pick("r-hold", 4)]
 	cfg.NoisePm = []int{0, 0, 30, 100}[ch.Pick("r-noise", 4)]
+	cfg.BurstPm = []int{0, 0, 0, 20}[ch.Pick("r-burst", 4)]
 	cfg.CrashPm = 0 // the focus node is never crashed by the generic fault; cancellation is an explicit action
 	if prop == "C16" {
 		cfg.CancelAt = cancelAt
@@ -206,8 +207,40 @@ func (w *World) rtStep(f *Node) bool {
 		return true
 	case band(cfg.NoisePm):
 		return w.noiseInto(f)
+	case band(cfg.BurstPm):
+		return w.burstInto(f)
 	}
 	return false
+}
+
+// burstInto: more messages than the worker's queue holds while the worker cannot take them (blocked in an SPI call
+// or held): the main loop must drop the excess without blocking.
+func (w *World) burstInto(f *Node) bool {
+	if f.ctrl == nil || (len(f.gates) == 0 && !f.ctrl.hold) || len(w.sent) == 0 || f.burstDone {
+		return false
+	}
+	f.burstDone = true
+	src := w.sent[len(w.sent)-1]
+	w.action("burst")
+	w.stats.Fault("overflow")
+	w.ev("burst of 1100 messages into n%d while its worker is busy", f.idx)
+	lh, ctx := f.lh, f.ctx
+	for i := 0; i < 1100 && w.viol == nil; i++ {
+		done := make(chan struct{})
+		go func() { lh.HandleConsensusMessage(ctx, src.raw); close(done) }()
+		synctest.Wait()
+		select {
+		case <-done:
+		default:
+			w.violate("C12", "handle-message-blocked", "HandleConsensusMessage did not return while the worker queue was full (message %d of a burst)", i)
+			return true
+		}
+		if forwardedByMainLoop(src.raw) && i < 1000-len(f.inbox) {
+			f.inbox = append(f.inbox, src.msg)
+		}
+	}
+	w.probe("overflow-burst")
+	return true
 }
 
 // apiStress: UpdateState with a block that is older than, equal to or newer than what the node decides.
